@@ -46,6 +46,10 @@ pub fn instants() -> Vec<(String, TimeSpec)> {
         ("P0+500ms".into(), TimeSpec { unix: TimeSpec::ymd(1960, 1, 1).unix, nanos: 500_000_000, offset: 0 }),
         ("P0-500ms".into(), TimeSpec { unix: TimeSpec::ymd(1960, 1, 1).unix - 1, nanos: 500_000_000, offset: 0 }),
         ("P0+1s".into(), TimeSpec { unix: TimeSpec::ymd(1960, 1, 1).unix + 1, nanos: 0, offset: 0 }),
+        // the ends of the calendar: the last local second under a positive offset (an hour before the last UTC second), and the last UTC second
+        ("local 9999-12-31T23:59:59+01:00".into(), TimeSpec { unix: TimeSpec::ymdhms(9999, 12, 31, 23, 59, 59).unix - 3600, nanos: 0, offset: 3600 }),
+        ("9999-12-31T23:59:59Z".into(), TimeSpec::ymdhms(9999, 12, 31, 23, 59, 59)),
+        ("local 0000-01-01T00:00:00-01:00".into(), TimeSpec { unix: TimeSpec::ymd(0, 1, 1).unix + 3600, nanos: 0, offset: -3600 }),
     ]
 }
 
@@ -294,7 +298,7 @@ pub fn add_sections(rep: &mut Report, prop: &str, thorough: bool, conformant_onl
     let space = crl_space(&iss, conformant_only);
     let cap = if thorough { 1100 } else { 50 };
     {
-        let sec = Section::new("crl/levels", "all CRL states with exactly k non-default dimensions (updates 288, crl_number 9, idp 9, revoked 8, key_id 5, issuer 23)").with_deadline(cap);
+        let sec = Section::new("crl/levels", "all CRL states with exactly k non-default dimensions (updates 399, crl_number 9, idp 9, revoked 8, key_id 5, issuer 23)").with_deadline(cap);
         run::levels(&sec, &space, if thorough { 5 } else { 3 }, &|c, _| judge(prop, &known, c, &iss, true));
         rep.add(sec);
     }
